@@ -20,7 +20,7 @@ def A(name, op, l, tiers, **kw):
 P = ("quick", "thorough")
 OPS = [("init", "OP_INIT"), ("push", "OP_PUSH"), ("pop", "OP_POP"), ("push_at", "OP_PUSH_AT"), ("pop_at", "OP_POP_AT"), ("getset", "OP_GETSET"), ("rem", "OP_REM"),
        ("rem_absent", "OP_REM_ABSENT"), ("mem", "OP_MEM"), ("concat", "OP_CONCAT"), ("resize", "OP_RESIZE"), ("sort", "OP_SORT"), ("iter", "OP_ITER"),
-       ("assign", "OP_ASSIGN"), ("del", "OP_DEL"), ("mark", "OP_MARK"), ("bad_index", "OP_BAD_INDEX"), ("pop_empty", "OP_POP_EMPTY")]
+       ("assign", "OP_ASSIGN"), ("del", "OP_DEL"), ("mark", "OP_MARK"), ("show", "OP_SHOW"), ("bad_index", "OP_BAD_INDEX"), ("pop_empty", "OP_POP_EMPTY")]
 def AN(name, op, l, nlen, spare, tiers, **kw):
     o = A(name, op, l, tiers, **kw)
     o.name = "array.%s.n%d%s" % (name, nlen, "+%d" % spare if spare else "")
@@ -51,6 +51,8 @@ for n_, o_ in OPS:
                 OBLIGATIONS.append(o)
             continue
         o = AN(n_, o_, 3, nlen, 1 if nlen == 2 else 0, P, timeout=600)
+        if n_ == "show":
+            o.replace_calls = ["print_to_with:v_print_rec"]; o.unwindset = list(o.unwindset) + ["v_print_rec.0:14"]
         if n_ == "sort" and nlen == 3:
             o.tiers = ("thorough",); o.mem_gb = 20; o.timeout = 3600
         OBLIGATIONS.append(o)
@@ -82,6 +84,14 @@ for nm, op in TOPS:
             TUPLE.append(TU(nm, op, nlen))
 TUPLE += [TU("iter_dup", "OP_ITER", 2, known={"forward iteration: exactly len items": "tuple-cursor-by-identity", "backward iteration: the same items in reverse order": "tuple-cursor-by-identity"})]
 TUPLE[-1].defs.append("DUP")
+TCMP = [TU("cmphash", "OP_CMPHASH", n_, replace_calls=["cmp:v_cmp_items", "hash:v_hash_items"]) for n_ in range(0, 4) for m_ in range(0, 4)]
+for o_, (n_, m_) in zip(TCMP, [(a_, b_) for a_ in range(0, 4) for b_ in range(0, 4)]):
+    o_.name = "tuple.cmphash.n%dm%d" % (n_, m_); o_.defs.append("MLEN=%d" % m_); o_.unwindset = list(o_.unwindset) + ["Tuple_Cmp.0:6", "Tuple_Hash.0:6", "Tuple_Iter_Next.0:6"]
+TUPLE += TCMP
+TASG = [TU("assign", "OP_ASSIGN", n_) for n_ in range(0, 4) for m_ in range(0, 4)]
+for o_, (n_, m_) in zip(TASG, [(a_, b_) for a_ in range(0, 4) for b_ in range(0, 4)]):
+    o_.name = "tuple.assign.n%dm%d" % (n_, m_); o_.defs.append("MLEN=%d" % m_)
+TUPLE += TASG
 TUPLE += [TU("rem_calls", "OP_REM_CALLS", n_, replace_calls=["Tuple_Pop_At:verif_pop_at_stub"]) for n_ in range(0, 4)]
 def LI(name, op, nlen, mlen=None, **kw):
     us = ["Type_Scan.0:40", "Type_Scan.1:40", "strcmp.0:26", "node_index.0:10", "pool_calloc.0:10", "pool_live_count.0:10", "owns.0:26", "owns.1:12", "owns.2:12", "elem_live_count.0:26",
